@@ -24,14 +24,23 @@ type C12Fault struct {
 }
 
 type C12Case struct {
-	Layout    Layout    `json:"layout"`
-	Clock0    int64     `json:"clock0"`
-	Files     []WFile   `json:"files"`
-	Cmds      []Cmd     `json:"cmds"`
-	Fault     *C12Fault `json:"fault,omitempty"`
-	SchedSeed uint64    `json:"sched_seed"`
-	Adv       []int64   `json:"adv,omitempty"` // clock advance before command i
-	PreemptP  float64   `json:"preempt_p,omitempty"`
+	Layout    Layout      `json:"layout"`
+	Clock0    int64       `json:"clock0"`
+	Files     []WFile     `json:"files"`
+	Cmds      []Cmd       `json:"cmds"`
+	Fault     *C12Fault   `json:"fault,omitempty"`
+	SchedSeed uint64      `json:"sched_seed"`
+	Adv       []int64     `json:"adv,omitempty"` // clock advance before command i
+	PreemptP  float64     `json:"preempt_p,omitempty"`
+	Changes   []C12Change `json:"changes,omitempty"` // the served tree changes before command Cmd
+}
+
+// C12Change: a file appears in, or disappears from, the served tree between
+// two commands (two or more levels below the base).
+type C12Change struct {
+	Cmd    int    `json:"cmd"`
+	Remove bool   `json:"remove,omitempty"`
+	Rel    string `json:"rel"`
 }
 
 type c12Sim struct{}
@@ -66,6 +75,9 @@ func (c12Sim) Gen(prop, tier string, r *rand.Rand) interface{} {
 	// a query string and a path (no glob meta characters, no line breaks)
 	oddDir, oddFile := oddName(r), oddName(r)+".wsp"
 	rels = append(rels, oddDir+"/"+oddFile)
+	// sibling directories of which one name is a prefix of the others and the
+	// next character sorts before the path separator
+	rels = append(rels, "web/x.wsp", "web-01/x.wsp", "web+c/x.wsp")
 	for _, rel := range rels {
 		if chance(r, 0.85) {
 			c.Files = append(c.Files, WFile{Base: "src", Rel: rel, Layout: l, Fills: genFills(r, l, 1, 0.7), Link: chance(r, 0.08)})
@@ -111,11 +123,17 @@ func (c12Sim) Gen(prop, tier string, r *rand.Rand) interface{} {
 				cm.Item = pick(r, oddDir, oddDir[:1]+"*")
 				cm.Src = pick(r, "*.wsp", oddFile, oddFile[:1]+"*.wsp")
 			}
+			if chance(r, 0.08) {
+				cm.Item, cm.Src = pick(r, "web*", "w*"), pick(r, "x.wsp", "*.wsp")
+			}
 		case 5, 6:
 			cm.Kind = "diff"
 			cm.Src = pick(r, "top.wsp", "grp/it0/a.wsp", "grp/it*/a.wsp", "grp/it0/*.wsp", "missing.wsp", "none*/x.wsp", "*.wsp", "*/*.wsp", "x*/*.wsp", "p+q/cpu+1&2=3.wsp", "p+*/*.wsp")
 			if chance(r, 0.12) {
 				cm.Src = pick(r, oddDir+"/"+oddFile, oddDir+"/*.wsp", oddDir[:1]+"*/"+oddFile[:1]+"*.wsp")
+			}
+			if chance(r, 0.08) {
+				cm.Src = pick(r, "web*/x.wsp", "w*/*.wsp")
 			}
 			if chance(r, 0.3) {
 				// both bases are the served tree: two requests overlap inside one command
@@ -135,6 +153,11 @@ func (c12Sim) Gen(prop, tier string, r *rand.Rand) interface{} {
 			}
 		}
 		genWindow(r, l, &cm)
+		if i > 0 && chance(r, 0.12) {
+			ch := C12Change{Cmd: i, Rel: pick(r, "grp/it0/zz-new.wsp", "grp/it1/a.wsp", "grp/it2/a.wsp", "web/y.wsp", "grp/it0/a.wsp")}
+			ch.Remove = chance(r, 0.4)
+			c.Changes = append(c.Changes, ch)
+		}
 		c.Cmds = append(c.Cmds, cm)
 		c.Adv = append(c.Adv, pick(r, int64(0), 0, 1, l.Archs[0].S, between(r, 1, l.MaxRet())))
 	}
@@ -219,7 +242,8 @@ func (c12Sim) Run(e *Env, ci interface{}) {
 		return
 	}
 	for _, f := range c.Files {
-		if !f.Layout.Valid() || (f.Base != "src" && f.Base != "dst") || f.Rel == "" || len(f.Fills) > 12 {
+		if !f.Layout.Valid() || (f.Base != "src" && f.Base != "dst") || f.Rel == "" || len(f.Fills) > 12 || f.Layout.String() != c.Layout.String() {
+			// every file of a C12 world has the case's layout (the oracles rely on it)
 			e.Skip("invalid-case")
 			return
 		}
@@ -231,7 +255,7 @@ func (c12Sim) Run(e *Env, ci interface{}) {
 			e.Skip("invalid-case")
 			return
 		}
-		if cm.Kind == "copy" && !cm.Create.Valid() {
+		if cm.Kind == "copy" && (!cm.Create.Valid() || cm.Create.String() != c.Layout.String()) {
 			e.Skip("invalid-case")
 			return
 		}
@@ -275,6 +299,7 @@ func (c12Sim) Run(e *Env, ci interface{}) {
 	}
 	dstL := filepath.Join(e.Dir, "dst")
 	dstSave := filepath.Join(e.Dir, "dst-save")
+	files := append([]WFile(nil), c.Files...) // the tree as it is now
 	for i, cm := range c.Cmds {
 		if e.Failed() {
 			return
@@ -283,6 +308,29 @@ func (c12Sim) Run(e *Env, ci interface{}) {
 		if i < len(c.Adv) && c.Adv[i] > 0 {
 			Advance(e, c.Adv[i])
 			e.Fault("F4.clock-advance")
+		}
+		for _, ch := range c.Changes {
+			if ch.Cmd != i || ch.Rel == "" || strings.Contains(ch.Rel, "..") || filepath.IsAbs(ch.Rel) {
+				continue
+			}
+			// the served tree changes between two commands
+			idx := -1
+			for k, f := range files {
+				if f.Base == "src" && f.Rel == ch.Rel {
+					idx = k
+				}
+			}
+			if ch.Remove && idx >= 0 {
+				os.Remove(filepath.Join(e.Dir, "src", ch.Rel))
+				files = append(files[:idx:idx], files[idx+1:]...)
+				e.Fault("served-tree-changed/file-removed")
+			} else if !ch.Remove && idx < 0 {
+				nf := WFile{Base: "src", Rel: ch.Rel, Layout: c.Layout, Fills: []WFill{{ID: 0, Pts: []LibPt{{Age: 0, V: FV(float64(i) + 0.5)}}}}}
+				if buildFile(e, nf) == nil {
+					files = append(files, nf)
+					e.Fault("served-tree-changed/file-added")
+				}
+			}
 		}
 		// the destination tree is reset between the local and the remote run
 		os.RemoveAll(dstSave)
@@ -326,10 +374,14 @@ func (c12Sim) Run(e *Env, ci interface{}) {
 			// schedule-dependent, locally as well as remotely
 			rels := []string{cm.Src}
 			if hasMeta(cm.Src) {
-				rels = matchGlob(cm.Src, filesOf(&CliCase{Files: c.Files}, "src"), true)
+				rels = matchGlob(cm.Src, filesOf(&CliCase{Files: files}, "src"), true)
 			}
 			wf, wu := cm.window(Now())
-			argErr := !(cm.Archive == -1 || (cm.Archive >= 0 && cm.Archive < len(c.Layout.Archs))) || wf > wu
+			nArch := len(c.Layout.Archs)
+			if cm.Kind == "copy" && len(cm.Create.Archs) < nArch {
+				nArch = len(cm.Create.Archs) // a destination created by the command has the requested layout
+			}
+			argErr := !(cm.Archive == -1 || (cm.Archive >= 0 && cm.Archive < nArch)) || wf > wu
 			for _, rel := range rels {
 				_, e1 := os.Stat(filepath.Join(e.Dir, "src", rel))
 				drel := rel
